@@ -51,6 +51,27 @@ Theorem C14_snapshot_coincide :
   forall d : db, wf_db d -> (snapshot d = VClean <-> prop_clean d = true).
 Proof. exact snapshot_coincide. Qed.
 
+(** 0'. What "engine bookkeeping" is, as a predicate on names -- the only
+    objects a dev database may hold and still be accepted: the table name
+    starts with the seven characters "sqlite_" in any letter case (SQLite
+    itself reserves exactly these names: CREATE TABLE SQLITE_FOO is rejected
+    with "object name reserved for internal use"), or is exactly
+    "libsql_wasm_func_table".  Nothing else -- not a leading underscore
+    (_prisma_migrations), a leading digit, a quoted name, "sqlite_"/"libsql_"
+    in the middle of a name, "SQLITE"/"LIBSQL_x", Atlas' own
+    atlas_schema_revisions -- and one such object is enough, whatever else the
+    database holds and whatever the inspection can or cannot see: Snapshot
+    does not accept (the sessions then leave it untouched: 1. below). *)
+Theorem C14_bookkeeping_names :
+  forall o : obj,
+  bookkeeping o = true <->
+  (exists pre rest, o_tbl o = pre ++ rest /\ length pre = 7 /\ map lower pre = b_sqlite_) \/ o_tbl o = b_wasm.
+Proof. exact bookkeeping_names. Qed.
+
+Theorem C14_nonbookkeeping_never_accepted :
+  forall (d : db) (o : obj), In o d -> bookkeeping o = false -> snapshot d <> VClean.
+Proof. exact nonbookkeeping_never_accepted. Qed.
+
 (** 1. Non-empty => refused and completely untouched.  Full statement, for
     every command (any session list [ss]), every body and all fault streams:
     if the database holds any object that is not engine bookkeeping, the first
@@ -218,6 +239,8 @@ Proof. exact run_cmd_dirwrite. Qed.
 Print Assumptions C14_clean_sound.
 Print Assumptions C14_clean_coincide.
 Print Assumptions C14_snapshot_coincide.
+Print Assumptions C14_bookkeeping_names.
+Print Assumptions C14_nonbookkeeping_never_accepted.
 Print Assumptions C14_refuse_untouched.
 Print Assumptions C14_declined_untouched.
 Print Assumptions C14_inspect_failure_restores.
@@ -408,4 +431,30 @@ Example C14_read_fault_nonvacuous :
     (OInspectFail 0, [], [EWrite 2 true; EWrite 3 true; ERestore 4; EWrite 1 true; ERestore 4]) /\
   run_cmd NormRealm CSchemaApply false [] SrcNone (SrcHCL [mkHTable 1 ex_t0 [(2, ex_i0)] false]) false ([], [true]) [true] [] =
     (OInspectFail 0, [mkObj KTable ex_t0 ex_t0 0 true; mkObj KIndex ex_i0 ex_t0 0 true], [EWrite 1 true; EWrite 2 true; ERestore 0]).
+Proof. vm_compute. repeat split. Qed.
+
+(* the name classes: none of them is engine bookkeeping, each is refused as a lone table with rows
+   and as a lone view, also next to real bookkeeping, also when the inspection hides the name;
+   SQLITE_FOO *would* count as bookkeeping -- the engine does not let anybody create it *)
+Definition ex_n_us : bytes := [95; 112; 114; 105; 115; 109; 97; 95; 109; 105; 103; 114; 97; 116; 105; 111; 110; 115]%N.  (* _prisma_migrations *)
+Definition ex_n_digit : bytes := [49; 97; 98; 99]%N.  (* 1abc *)
+Definition ex_n_space : bytes := [109; 121; 32; 116; 97; 98; 108; 101]%N.  (* my table *)
+Definition ex_n_mid : bytes := [120; 95; 115; 113; 108; 105; 116; 101; 95; 121]%N.  (* x_sqlite_y *)
+Definition ex_n_midl : bytes := [109; 121; 95; 108; 105; 98; 115; 113; 108; 95; 116]%N.  (* my_libsql_t *)
+Definition ex_n_S6 : bytes := [83; 81; 76; 73; 84; 69]%N.  (* SQLITE *)
+Definition ex_n_L : bytes := [76; 73; 66; 83; 81; 76; 95; 120]%N.  (* LIBSQL_x *)
+Definition ex_n_wasm1 : bytes := [108; 105; 98; 115; 113; 108; 95; 119; 97; 115; 109; 95; 102; 117; 110; 99; 95; 116; 97; 98; 108]%N.  (* libsql_wasm_func_tabl *)
+Definition ex_n_rev : bytes := [97; 116; 108; 97; 115; 95; 115; 99; 104; 101; 109; 97; 95; 114; 101; 118; 105; 115; 105; 111; 110; 115]%N.  (* atlas_schema_revisions *)
+Definition ex_n_SF : bytes := [83; 81; 76; 73; 84; 69; 95; 70; 79; 79]%N.  (* SQLITE_FOO *)
+Definition ex_name_classes : list bytes := [ex_n_us; ex_n_digit; ex_n_space; ex_n_mid; ex_n_midl; ex_n_S6; ex_n_L; ex_n_wasm1; ex_n_rev].
+Example C14_name_classes_nonvacuous :
+  forallb (fun n => negb (bookkeeping (mkObj KTable n n 2 true))) ex_name_classes = true /\
+  forallb (fun n => match snapshot [mkObj KTable n n 2 true] with VNotClean => true | _ => false end) ex_name_classes = true /\
+  forallb (fun n => match snapshot [mkObj KView n n 0 true] with VNotClean => true | _ => false end) ex_name_classes = true /\
+  forallb (fun n => match snapshot [mkObj KTable ex_seq ex_seq 0 true; mkObj KTable n n 2 true] with VNotClean => true | _ => false end)
+          ex_name_classes = true /\
+  hidden_name ex_n_L = true /\ hidden_name ex_n_wasm1 = true /\ hidden_name ex_n_us = false /\
+  bookkeeping (mkObj KTable ex_n_SF ex_n_SF 0 true) = true /\
+  run_cmd NoNorm CValidate false ex_dir SrcNone SrcNone false ([], []) [] [mkObj KTable ex_n_us ex_n_us 2 true]
+    = (ORefused, [mkObj KTable ex_n_us ex_n_us 2 true], []).
 Proof. vm_compute. repeat split. Qed.
